@@ -314,3 +314,11 @@ def r7(fx):
                 bad.append((x, ex.name))
     yield ob('normalize_mode refuses unknown modes with ValueError', not bad and f(None) is None, fn, got=bad, want=[])
     yield from wrappers.forwarding(fx, {'mode'})
+
+
+@rule('C07', 'R9', 40, 'the version search never answers with a version in which a mode of the content does not exist (find_version decision table, C04.R3)')
+def r9(fx):
+    from . import p04
+    for o in p04.r3(fx):
+        if 'modes=' in o.key and any(m_ in o.key for m_ in ('byte', 'kanji', 'hanzi', 'alphanumeric')):
+            yield o
